@@ -28,3 +28,32 @@ def haversine(lat1, lon1, lat2, lon2, r=REARTH):
     dl = math.radians(lon2 - lon1)
     h = math.sin((p2 - p1) / 2) ** 2 + math.cos(p1) * math.cos(p2) * math.sin(dl / 2) ** 2
     return 2 * r * math.asin(min(1.0, math.sqrt(h)))
+
+
+KTS = 0.514444
+FT = 0.3048
+RHO0 = p0 / (R * T0)
+
+
+def vsound(H):
+    return math.sqrt(1.4 * R * atmos(H)[2])
+
+
+def mach2tas(M, H):
+    return M * vsound(H)
+
+
+def tas2cas(V, H):
+    p, rho, T = atmos(H)
+    q = p * ((1 + rho * V * V / (7 * p)) ** 3.5 - 1.0)
+    return math.sqrt(7 * p0 / RHO0 * ((q / p0 + 1.0) ** (2 / 7.0) - 1.0))
+
+
+def cas2tas(V, H):
+    p, rho, T = atmos(H)
+    q = p0 * ((1 + RHO0 * V * V / (7 * p0)) ** 3.5 - 1.0)
+    return math.sqrt(7 * p / rho * ((1 + q / p) ** (2 / 7.0) - 1.0))
+
+
+def mach2cas(M, H):
+    return tas2cas(mach2tas(M, H), H)
